@@ -95,4 +95,23 @@ def model_and_replay(prop, wd, **kw):
         log("SPEC-DRIFT action=sweep-replay op=%s A=%s B=%s: %s" % (d["op"], json.dumps(d["A"])[:120], json.dumps(d["B"])[:120], d["why"][:300]))
     if len(drift) > 3:
         log("SPEC-DRIFT ... %d more behaviours differ" % (len(drift) - 3))
-    return {"states": res["distinct"], "transitions": res["generated"], "behaviours": len(behaviours), "replayed": n, "drift": len(drift), "labels": labels, "tlc_seconds": round(dt, 1)}
+    return {"states": res["distinct"], "transitions": res["generated"], "behaviours": len(behaviours), "replayed": n, "drift": len(drift), "labels": labels, "tlc_seconds": round(dt, 1),
+            "inputs": [(b["A"], b["B"], b["op"]) for b in behaviours]}
+
+
+def inputs_as_sessions(inputs, path, tag):
+    """The model's own inputs (one TLC behaviour each) as corpus sessions for `vh rerun`: the real
+    code's answers to exactly these inputs are then judged by the Layer P contract (TraceOps), so a
+    difference between model and code is a VIOLATION when - and only when - the contract says so."""
+    groups = {}
+    for (a, b, op) in inputs:
+        groups.setdefault(json.dumps([a, b]), (a, b, []))[2].append(op)
+    with open(path, "w") as f:
+        for i, (a, b, ops) in enumerate(groups.values()):
+            mp3 = lambda mp: [[[[q[0], q[1], 0] for q in rg] for rg in pl] for pl in mp]
+            ev = [{"ev": "def", "name": "A", "k": 0, "mp": mp3(a), "rel": "base"}, {"ev": "def", "name": "B", "k": 0, "mp": mp3(b), "rel": "base"}]
+            for n, op in enumerate(sorted(set(ops))):
+                ev.append({"ev": "call", "res": "R%d" % (n + 1), "op": op, "x": "A", "y": "B", "px": "m", "py": "m", "F": "f64", "thr": 0,
+                           "outcome": "ok", "msg": "", "popped": 0, "mp": [], "bits": "", "xd": ["", ""], "yd": ["", ""]})
+            f.write(json.dumps({"sid": i + 1, "kind": "model", "family": "layerM/" + tag, "seed": 0, "events": ev}, separators=(",", ":")) + "\n")
+    return len(groups)
